@@ -3,16 +3,51 @@
 SPEC = dict(
     harness=['h_fuzzy.c', 'h_fuzzy_ext.c'],
     level='exploration',
-    rule='placeholder',
+    rule='three monitor groups. MF: for each of the 13 a_mf_* families, parameter tuples are drawn per degeneracy class (all '
+         'equal-neighbour patterns a=b, b=c, c=d, ... of the piecewise-linear families, flanks a few ulps wide, c1=c2, slope-sign '
+         'patterns, 2b=1/integer/fractional bell exponents) x 7 magnitudes (1e-150..1e150) x {centred, offset by 2^4..2^16 widths}; every '
+         'tuple is evaluated on all of its break points, +-1, +-2, +-1000 ulps around each, midpoints and random points of every '
+         'interval between them, far outside, +-1e300, +-DBL_MAX, 0, and judged for range, core==1, support==0, the documented formula '
+         'in __float128, monotone neighbouring pairs per flank, one-sided continuity at break points, s+z / lins+linz == 1, a_mf == '
+         'specific function. OP: grid of 13 special membership values squared + random pairs (uniform, tiny, 1-tiny, dyadic), every '
+         'operator judged against its exact formula and class laws, header-inline body vs exported symbol vs a_pid_fuzzy_opr pointer. '
+         'PID: every rule-base order 1..7 x every operator selector (7 + unknown) x 10 membership-table kinds (partitions of every '
+         'family, mixed tables, early-terminated tables), scratch block = exact-size malloc of A_PID_FUZZY_BFUZZ(N) with N = measured '
+         'maximum of simultaneously active sets over the planned inputs (or the order), gains after every run/pos/inc step judged '
+         'against the weighted mean of the active consequents in __float128. distinct_nontrivial counts distinct cells (MF: family, '
+         'degeneracy class, input region = which break point and which ulp offset / which interval / far / huge; OP: operator, a<b|a=b|a>b, '
+         'magnitude bucket of a x bucket of b; PID: operator, order, table kinds, number of active e sets, number of active ec sets, '
+         'outcome) - NOT the number of evaluations.',
     exhaustive={'quick': None, 'thorough': None},
-    require=['mf-range'],
+    require=['mf-range', 'mf-core-one', 'mf-support-zero', 'mf-formula', 'mf-monotone', 'mf-continuity', 'mf-s+z=1', 'mf-lins+linz=1',
+             'mf-dispatcher', 'op-commutative', 'op-formula', 'op-class-bound', 'op-monotone', 'op-boundary', 'op-inline==exported',
+             'op-pid-selector', 'op-not', 'op-equ_', 'pid-bfuzz-layout', 'pid-opr-default', 'pid-partition-bound-2',
+             'pid-gain-base-when-nothing-fires', 'pid-gain-finite', 'pid-gain-in-consequent-range', 'pid-gain-weighted-mean'],
     cov_files=['mf.c', 'fuzzy.c', 'pid_fuzzy.c'],
-    cov_cases=300, cov_funcs=r'^a_(mf|fuzzy|pid_fuzzy)',
+    cov_cases=400, cov_funcs=r'^a_(mf|fuzzy|pid_fuzzy)',
+    workers={'quick': 8, 'thorough': 16},
+    timeout={'quick': 900, 'thorough': 7200},
     assumptions=[
         'only executions produced by this run are judged (runtime monitoring, not proof)',
         'gcc 12 / x86-64 LP64 little-endian, A_SIZE_POINTER=8; library rebuilt from /repo working tree with -fsanitize=address,undefined',
+        'a_real = double (A_SIZE_REAL 8), glibc libm exp/pow/sqrt (error < 1 ulp) behind a_real_exp/pow/sqrt',
+        'parameter domain as in the quantifier: a<=b<=c<=d for trap/tri/lins/linz (all equalities included), non-zero widths for '
+        'gauss/gauss2/gbell/sig/psig/s/z/pi, equal positive slopes and c1<=c2 for dsig; |parameters| <= 1e150 * 2^16; flank widths of '
+        's/z/pi at least 2^-17 of the magnitude of their break points (below 2^-26 the rounded midpoint (a+b)/2 differs visibly from the real one)',
+        'not judged against the formula (range only): gbell where |x-c|/a overflows double (library gives 0, exact value ~1e-295); '
+        'lins/linz with a==b at x==a (documentation gives both 0 and 1 there; NaN is still a range violation); a_fuzzy_equ_ where a*b is subnormal',
+        'fuzzy PID: memberships and operator values used as weights of the reference mean are the library\'s own doubles (each judged separately '
+        'against quad in the MF/OP groups); steps where a membership lies within 4 ulps of the activation threshold eps are executed but not judged',
     ],
-    level_text='placeholder',
-    level_note='placeholder',
-    technique='placeholder',
+    level_text='Each family/operator is a pure function of <= 5 reals and the controller step is a pure function of the tables and two '
+               'inputs, so the refuting events are all observable at the call boundary: the check executes the real functions on structured '
+               'boundary inputs (every break point and its ulp neighbourhood, every degeneracy pattern of the parameters, every operator '
+               'selector and rule-base order) plus random ones and compares with an independent __float128 evaluation of the documented '
+               'formula and with the algebraic laws; the scratch buffer contract is watched by ASan on an exact-size block whose size is the '
+               'tightest admissible one. Exploration (not exhaustive): the input spaces are real-valued.',
+    level_note='trusted: libquadmath (expq, powq, sqrtq) and gcc __float128 arithmetic; conditioning-aware meaning of "4 ulps" for the '
+               'exp/pow based families (see harness header); sampled parameter and input spaces; overruns that stay inside the scratch '
+               'allocation are only visible through a wrong gain (value-level oracle), not through ASan',
+    technique='structured boundary + random input sweep with quad-precision formula oracle, algebraic-law monitors, exact-size heap scratch '
+              'buffer under ASan+UBSan',
 )
